@@ -79,9 +79,14 @@ def gen_patching(rng, depth=0, maxdepth=3, logics=True, ignore=True, special=Tru
             params.append("%global")
         if special and kind < 0.15:
             params.append("%ordered")
+            if logics and rng.random() < 0.2:
+                # legal, and without effect: %ordered decides both logics (rulebook/patching.py:96-101)
+                params.append("%logic=" + rng.choice(LOGICS))
         elif special and kind < 0.25 and depth > 0:
             # as in the shipped rulebooks, %rewrite rules live inside a block ("xpl ~ / ~ %rewrite %global")
             params.append("%rewrite")
+            if logics and rng.random() < 0.15:
+                params.append("%logic=" + rng.choice(LOGICS))
         elif logics and kind < 0.45:
             params.append("%logic=" + rng.choice(LOGICS))
         if rng.random() < 0.05:
